@@ -143,8 +143,6 @@ type episode struct {
 	peak    atomic.Int64
 }
 
-var noIDFlip atomic.Int64
-
 func jobID(key int) string { return fmt.Sprintf("id-%d", key) }
 
 func (ep *episode) outcome(key int) string {
@@ -256,10 +254,10 @@ func workerConfigs(c cfgSpec, ep *episode) []any {
 	return cfg
 }
 
-func jobCfg(id string) []JobConfigFunc {
+func jobCfg(id string, key int) []JobConfigFunc {
 	if id == "" {
-		// no ID chosen (the worker has a generator): alternately no option at all and the no-op option WithJobId("")
-		if noIDFlip.Add(1)%2 == 0 {
+		// no ID chosen (the worker has a generator): by job key no option at all, or the no-op option WithJobId("")
+		if key%2 == 0 {
 			return []JobConfigFunc{WithJobId("")}
 		}
 		return nil
@@ -286,7 +284,7 @@ func (ep *episode) setup() {
 				iq := q.(*errorQueue[int]).internalQueue
 				return &hQueue{kind: kind, purge: q.Purge, close: q.Close, pending: q.NumPending, values: iq.Values,
 					add: func(key, prio int, id string) (*hJob, bool) {
-						j, ok := q.Add(key, jobCfg(id)...)
+						j, ok := q.Add(key, jobCfg(id, key)...)
 						if !ok {
 							return nil, false
 						}
@@ -301,7 +299,7 @@ func (ep *episode) setup() {
 				iq := q.(*errorPriorityQueue[int]).internalQueue
 				return &hQueue{kind: kind, purge: q.Purge, close: q.Close, pending: q.NumPending, values: iq.Values,
 					add: func(key, prio int, id string) (*hJob, bool) {
-						j, ok := q.Add(key, prio, jobCfg(id)...)
+						j, ok := q.Add(key, prio, jobCfg(id, key)...)
 						if !ok {
 							return nil, false
 						}
@@ -329,7 +327,7 @@ func (ep *episode) setup() {
 				iq := q.(*resultQueue[int, int]).internalQueue
 				return &hQueue{kind: kind, purge: q.Purge, close: q.Close, pending: q.NumPending, values: iq.Values,
 					add: func(key, prio int, id string) (*hJob, bool) {
-						j, ok := q.Add(key, jobCfg(id)...)
+						j, ok := q.Add(key, jobCfg(id, key)...)
 						if !ok {
 							return nil, false
 						}
@@ -344,7 +342,7 @@ func (ep *episode) setup() {
 				iq := q.(*resultPriorityQueue[int, int]).internalQueue
 				return &hQueue{kind: kind, purge: q.Purge, close: q.Close, pending: q.NumPending, values: iq.Values,
 					add: func(key, prio int, id string) (*hJob, bool) {
-						j, ok := q.Add(key, prio, jobCfg(id)...)
+						j, ok := q.Add(key, prio, jobCfg(id, key)...)
 						if !ok {
 							return nil, false
 						}
@@ -380,7 +378,7 @@ func (ep *episode) setup() {
 				iq := q.(*queue[int]).internalQueue
 				return &hQueue{kind: kind, purge: q.Purge, close: q.Close, pending: q.NumPending, values: iq.Values,
 					add: func(key, prio int, id string) (*hJob, bool) {
-						j, ok := q.Add(key, jobCfg(id)...)
+						j, ok := q.Add(key, jobCfg(id, key)...)
 						if !ok {
 							return nil, false
 						}
@@ -395,7 +393,7 @@ func (ep *episode) setup() {
 				iq := q.(*priorityQueue[int]).internalQueue
 				return &hQueue{kind: kind, purge: q.Purge, close: q.Close, pending: q.NumPending, values: iq.Values,
 					add: func(key, prio int, id string) (*hJob, bool) {
-						j, ok := q.Add(key, prio, jobCfg(id)...)
+						j, ok := q.Add(key, prio, jobCfg(id, key)...)
 						if !ok {
 							return nil, false
 						}
@@ -413,15 +411,15 @@ func (ep *episode) setup() {
 				if kind == "pfifo" {
 					q := b.WithPersistentQueue(ad)
 					hq.purge, hq.close, hq.pending = q.Purge, q.Close, q.NumPending
-					hq.add = func(key, prio int, id string) (*hJob, bool) { return nil, q.Add(key, jobCfg(id)...) }
+					hq.add = func(key, prio int, id string) (*hJob, bool) { return nil, q.Add(key, jobCfg(id, key)...) }
 				} else {
 					q := b.WithDistributedQueue(ad)
 					hq.purge, hq.close, hq.pending = q.Purge, q.Close, q.NumPending
-					hq.add = func(key, prio int, id string) (*hJob, bool) { return nil, q.Add(key, jobCfg(id)...) }
+					hq.add = func(key, prio int, id string) (*hJob, bool) { return nil, q.Add(key, jobCfg(id, key)...) }
 					for _, bi := range binders[1:] {
 						qi := bi.WithDistributedQueue(ad)
 						ep.extraQ = append(ep.extraQ, &hQueue{kind: kind, values: ad.Values, purge: qi.Purge, close: qi.Close, pending: qi.NumPending,
-							add: func(key, prio int, id string) (*hJob, bool) { return nil, qi.Add(key, jobCfg(id)...) }})
+							add: func(key, prio int, id string) (*hJob, bool) { return nil, qi.Add(key, jobCfg(id, key)...) }})
 					}
 				}
 				hq.raw = func(kind string, prio int) { ad.enqueueRaw(kind, prio) }
@@ -435,15 +433,15 @@ func (ep *episode) setup() {
 				if kind == "pprio" {
 					q := b.WithPersistentPriorityQueue(pad)
 					hq.purge, hq.close, hq.pending = q.Purge, q.Close, q.NumPending
-					hq.add = func(key, prio int, id string) (*hJob, bool) { return nil, q.Add(key, prio, jobCfg(id)...) }
+					hq.add = func(key, prio int, id string) (*hJob, bool) { return nil, q.Add(key, prio, jobCfg(id, key)...) }
 				} else {
 					q := b.WithDistributedPriorityQueue(pad)
 					hq.purge, hq.close, hq.pending = q.Purge, q.Close, q.NumPending
-					hq.add = func(key, prio int, id string) (*hJob, bool) { return nil, q.Add(key, prio, jobCfg(id)...) }
+					hq.add = func(key, prio int, id string) (*hJob, bool) { return nil, q.Add(key, prio, jobCfg(id, key)...) }
 					for _, bi := range binders[1:] {
 						qi := bi.WithDistributedPriorityQueue(pad)
 						ep.extraQ = append(ep.extraQ, &hQueue{kind: kind, values: ad.Values, purge: qi.Purge, close: qi.Close, pending: qi.NumPending,
-							add: func(key, prio int, id string) (*hJob, bool) { return nil, qi.Add(key, prio, jobCfg(id)...) }})
+							add: func(key, prio int, id string) (*hJob, bool) { return nil, qi.Add(key, prio, jobCfg(id, key)...) }})
 					}
 				}
 				hq.raw = func(kind string, prio int) { ad.enqueueRaw(kind, prio) }
